@@ -1,7 +1,8 @@
 import sys,json; sys.path.insert(0,'/verif/rules')
 from facts import Facts
 import glob,os,collections,p7
-F=Facts(sorted(glob.glob('/verif/.cache/facts-q-*.jsonl'),key=os.path.getmtime)[-1])
+import extract
+F=Facts(extract.ensure_facts('q')[0])
 import importlib
 sets=json.load(open('/verif/rules/p7_sets.json'))
 REASONS=json.load(open('/verif/rules/p7_reasons.json'))   # list of [fn-substring, kind-substring, reason]
